@@ -65,6 +65,8 @@ Inductive op :=
 | OReload
 | ORevert                     (* Revert to the latest snapshot (bogus name when there is none) *)
 | OSetCheckpoint
+| OOpenBadCounter             (* Server.Open while the counter block does not parse: refused, nothing kept *)
+| OSetRevFail (v : Z)         (* SetRevisionCounter whose write of the counter block fails: refused, cache and file keep the old value *)
 | OGetRevFail                 (* Replica.GetRevisionCounter while the counter block cannot be read: answers -1, keeps everything *)
 | OOpenFail                   (* Server.Open whose last step, the rewrite of volume.meta, fails: refused, nothing kept *)
 | OCloseFail.                 (* Server.Close whose final metadata write fails: the replica's files are closed and
@@ -187,6 +189,8 @@ Definition step (s : st) (o : op) : st * res :=
   | OSetCheckpoint =>
       with_rep s (fun x =>
         (mkst (present s) (r s) (dcount s) (idirty x) (irebuild x) (applied s) (snaps s), ROk))
+  | OOpenBadCounter => (s, RErr)
+  | OSetRevFail _ => (s, RErr)
   | OGetRevFail => (s, RErr)
   | OOpenFail => (s, RErr)
   | OCloseFail =>
